@@ -24,7 +24,7 @@ import numpy
 from common import fr, frl, frm, unfrl, unfrm
 
 NEAR = 1 + Fraction(1, 2 ** 51)
-TEMPS = [None, 0.001, 0.01, 0.2, 1.0, 10.0]
+TEMPS = [None, 1e-8, 1e-5, 0.001, 0.01, 0.2, 1.0, 10.0]
 
 
 # ------------------------------------------------------------------ plumbing
@@ -579,6 +579,26 @@ def check_decode(ctx, case):
   moved = decode_rows(ctx, case, dom, xs, ys.tolist(), require_constraints=True)
   if moved is None:
     return False
+  # [labelled test, practically deterministic] at or below the library's minimum snapping temperature (0.01, also when a
+  # smaller one is requested: it must be clamped) a block with a clear arg-max (runner-up <= half the maximum) decodes to
+  # that arg-max: the chance of anything else is below 3 * 0.5**100 (the maximum must be >= 0.05: below ~1e-3 its 100th
+  # power underflows under the 1e-300 floor and the draw is uniform in the unchanged library too).
+  t = case["temperature"]
+  if t is not None and t <= 0.01:
+    for x, y in zip(xs, ys.tolist()):
+      off = 0
+      for j, c in enumerate(case["comps"]):
+        w = width(c)
+        if c["t"] == "cat":
+          b = x[off:off + w]
+          top = max(b)
+          rest = sorted(b)[-2] if len(b) > 1 else 0.0
+          if top >= 0.05 and rest <= 0.5 * top and float(y[j]) != float(c["e"][b.index(top)]):
+            ctx.violation("C09 low-temperature decode of a categorical block with a clear arg-max returned another element",
+                          {"case": case, "block": b, "decoded": y[j], "component": j})
+            return False
+          ctx.count("low-temperature arg-max blocks")
+        off += w
   if not check_round_functions(ctx, case, dom, xs[0]):
     return False
   ctx.count("decode" + (" (temperature given)" if case["temperature"] else ""))
